@@ -23,6 +23,8 @@ from concretise import concretise, GAP_BREAK
 from sentence import spec_tree
 
 THEMES = ['asi', 'asi2', 'asi3']
+DEEP_SIGMA = ['ID', ';', '{', '}', '(', ')', 'function', 'if', 'while', 'for',
+              'return', 'var', '=', 'do', 'else', ',']
 
 NEAR = [
     ('nolt', ['ID', ';', '{', '}', 'return', 'break', 'continue', 'throw',
@@ -36,7 +38,7 @@ NEAR = [
      {'quick': 4, 'thorough': 6}),
 ]
 
-RULE = ('every sentence of the asi themes that has a virtual semicolon or a '
+RULE = ('every sentence of the asi themes and of seeded deep tlc -simulate derivations (16 tokens, function bodies nested in headers) that has a virtual semicolon or a '
         'line break, concretised with line-break layout kinds (quick: LF + 2 '
         'rotating kinds of 15, thorough: all) and its explicit-semicolon '
         'twin; near-sentences with one ASI rule lifted must be rejected.  '
@@ -130,13 +132,21 @@ def main(tier, seed, replay=None):
     build_scratch()
     rng = random.Random(seed)
     themes = gen.run_themes(THEMES, tier, rep, jobs=6)
+    # deep random derivations (tlc -simulate): terminators nested in
+    # function bodies inside statement headers, calls, initialisers
+    sr, deep = gen.simulate(3000 if tier == 'quick' else 60000, maxtok=16,
+                            maxnl=2, seed=seed + 5, sigma=DEEP_SIGMA,
+                            workers=4)
+    rep.add_tlc(sr)
+    themes['deep'] = sorted(deep, key=lambda s: s.key())
+    rep.notes['deep_sentences'] = len(deep)
     rep.mark('generated')
     kinds = core.BREAK_KINDS
     work = []
     meta = []
     distinct = set()
     n = 0
-    for name in THEMES:
+    for name in THEMES + ['deep']:
         for s in themes[name]:
             has_v = any(it.virtual for it in s.items)
             has_nl = any(t.nl for t in s.tokens)
